@@ -30,6 +30,12 @@ func main() {
 		panic(err)
 	}
 	switch what {
+	case "ssa":
+		for _, fn := range p.OwnFuncs() {
+			if len(os.Args) > 3 && fn.Name() == os.Args[3] {
+				fn.WriteTo(os.Stdout)
+			}
+		}
 	case "inlined":
 		for n := range core.NewFunctions {
 			fmt.Println("new:", n)
